@@ -197,19 +197,20 @@ def coq_check_property(prop_file_rel):
 
 # ------------------------------------------------------------------ harness
 
-def harness_build(timeout=3000):
+def harness_build(timeout=3000, bin="tfh"):
+    """Build one harness binary (and, through path dependencies, /repo's current working tree)."""
     lock = os.path.join(HARNESS, "Cargo.lock")
     if not os.path.exists(lock):
         shutil.copy("/repo/Cargo.lock", lock)
-    rc, out, dt = sh(["cargo", "build", "--release", "--offline"], cwd=HARNESS, timeout=timeout, env=env_offline())
+    rc, out, dt = sh(["cargo", "build", "--release", "--offline", "--bin", bin], cwd=HARNESS, timeout=timeout, env=env_offline())
     return rc == 0, out, dt
 
 
-def harness_run(sub, seed, n, outdir, extra=(), timeout=3000):
+def harness_run(sub, seed, n, outdir, extra=(), timeout=3000, bin="tfh"):
     if os.path.isdir(outdir):
         shutil.rmtree(outdir)
     os.makedirs(outdir)
-    cmd = [TFH, sub, "--seed", str(seed), "--n", str(n), "--out", outdir] + list(extra)
+    cmd = [os.path.join(TARGET, "release", bin), sub, "--seed", str(seed), "--n", str(n), "--out", outdir] + list(extra)
     rc, out, dt = sh(cmd, cwd=VERIF, timeout=timeout, env=env_offline())
     return rc, out, dt
 
@@ -231,7 +232,7 @@ def parse_coq_string_list(out):
 
 def _run_shard(path):
     d = os.path.dirname(path)
-    rc, out, dt = sh(["coqc", "-q", "-noglob", "-Q", THEORIES, "TF", os.path.basename(path)], cwd=d, timeout=3000)
+    rc, out, dt = sh("ulimit -s unlimited 2>/dev/null || ulimit -s 1000000; exec coqc -q -noglob -Q %s TF %s" % (THEORIES, os.path.basename(path)), cwd=d, timeout=3000)
     if rc != 0:
         return path, None, out[-3000:], dt
     return path, parse_coq_string_list(out), out[-500:], dt
